@@ -671,6 +671,60 @@ class R:
             SPACE.memo[key] = r
         return R(r)
 
+    # ---- transcendental / rounding functions as memoised uninterpreted functions with the contracts needed for scale computations
+    def _uf(self, name, contract):
+        key = (name, _key(self.n), _key(self.d))
+        r = SPACE.memo.get(key)
+        if r is None:
+            r = SPACE.fresh_real(name)
+            SPACE.memo[key] = r
+            SPACE.memo[("prov", r.get_id())] = (name, self)
+            contract(R(r))
+        return R(r)
+
+    def log2(self):
+        """defined for self > 0 (callers branch on the sign first): monotone contract against 0 only: log2 x >= 0 <=> x >= 1"""
+        if self.conc and self.frac() > 0:
+            f, k = self.frac(), 0
+            while f > 1 and f.denominator == 1 and f.numerator % 2 == 0:
+                f, k = f / 2, k + 1
+            while f < 1 and f.numerator == 1 and f.denominator % 2 == 0:
+                f, k = f * 2, k - 1
+            if f == 1:
+                return R(k)
+        x = self
+        return self._uf("log2", lambda r: (SPACE.assume(z3.Implies((x >= 1).z(), (r >= 0).z())), SPACE.assume(z3.Implies((x < 1).z(), (r < 0).z()))))
+
+    def floor(self):
+        if self.conc:
+            return R(self.frac().__floor__())
+        x = self
+        return self._uf("floor", lambda r: (SPACE.assume(r <= x), SPACE.assume(x < r + 1)))
+
+    def ceil(self):
+        if self.conc:
+            return R(self.frac().__ceil__())
+        x = self
+        return self._uf("ceil", lambda r: (SPACE.assume(r >= x), SPACE.assume(x > r - 1)))
+
+    def exp2(self):
+        if self.conc and self.frac().denominator == 1 and abs(self.frac()) <= 4096:
+            k = int(self.frac())
+            return R(Fraction(2) ** k)
+        x = self
+        def contract(r):
+            SPACE.assume(r > 0)
+            # 2 ** floor(log2 y) is the largest power of two <= y:  r <= y < 2 r
+            prov = None if x.conc else SPACE.memo.get(("prov", x.n.get_id())) if _isc(x.d) and x.d == 1 and not _isc(x.n) else None
+            if prov is not None and prov[0] == "floor":
+                inner = prov[1]
+                p2 = None if inner.conc or _isc(inner.n) else SPACE.memo.get(("prov", inner.n.get_id())) if _isc(inner.d) and inner.d == 1 else None
+                if p2 is not None and p2[0] == "log2":
+                    y = p2[1]
+                    SPACE.assume(r <= y)
+                    SPACE.assume(y < 2 * r)
+        return self._uf("exp2", contract)
+
     def abs(self):
         if self.conc:
             return R(abs(self.frac()))
